@@ -592,6 +592,31 @@ def iter_all_any(m, st, inst, args, t):
     is_all = inst["npath"].endswith("::all")
     if s[2][0] == "int" and s[2][1] == 0:
         return TRUE if is_all else FALSE
+    if s[1][0] in ("L", "H", "A") and s[2][0] == "int" and s[2][1] <= 64:
+        # a short slice of a local / constant array (e.g. the block a scanner has peeked): element-wise
+        u8 = None
+        for i, ty in enumerate(m.p.types):
+            if ty and ty["k"] == "int" and ty["size"] == 1 and not ty["signed"]:
+                u8 = i
+                break
+        for i in range(s[2][1]):
+            v = m.read_loc(st, m.elem_loc(st, s[1], mk_int(i, 64)), u8)
+            if v[0] == "int":
+                holds = bool((P >> (v[1] & 0xFF)) & 1)
+            elif v[0] == "cell" and v[2] == TABLES.ident:
+                mask = st.cells[v[1]]
+                inside, outside = mask & P, mask & ~P & FULL
+                if inside and outside:
+                    c_ = v[1]
+                    raise Fork([("pred-holds", lambda s_, c_=c_: s_.refine(c_, P)), ("pred-fails", lambda s_, c_=c_: s_.refine(c_, FULL & ~P))], "predicate on a block byte")
+                holds = bool(inside)
+            else:
+                raise Unanalysable("all/any over derived byte values")
+            if is_all and not holds:
+                return FALSE
+            if not is_all and holds:
+                return TRUE
+        return TRUE if is_all else FALSE
     j = lookahead_prefix(m, st, s)
     if j is not None:
         # the measured look-ahead [cursor, token+j): its cells and the pending run
